@@ -57,84 +57,110 @@ pub struct WatchStream<T> {
     items: UnsafeCell<VVec<T>>,
     pos: Cell<usize>,
 }
-impl<T: Clone> WatchStream<T> {
+impl<T> WatchStream<T> {
     pub fn from_items(items: VVec<T>) -> Self {
         WatchStream { items: UnsafeCell::new(items), pos: Cell::new(0) }
     }
+    /// the next snapshot (moved out, not cloned)
     pub fn next(&mut self) -> Option<T> {
-        let items = unsafe { &*self.items.get() };
+        let items = unsafe { &mut *self.items.get() };
         let p = self.pos.get();
         self.pos.set(p + 1);
-        items.get(p).cloned()
+        items.take_at(p)
     }
 }
 
 pub mod watch {
     use super::*;
+    /// the channel state lives in a harness LOCAL (a typed stack object): a heap object is an untyped byte array for CBMC and
+    /// nothing stored in it is constant-propagated (measured: 15 M -> 7 M SAT variables from un-boxing the maps alone)
     pub struct SenderInner<T> {
         /// what a receiver that reads now would see
         pub latest: UnsafeCell<Option<T>>,
         /// ghost: every value ever sent, in order
         pub log: UnsafeCell<VVec<T>>,
     }
-    /// handle (the harness keeps a clone to inspect the ghost log after the call)
+    impl<T> SenderInner<T> {
+        pub fn new() -> Self {
+            SenderInner { latest: UnsafeCell::new(None), log: UnsafeCell::new(VVec::new()) }
+        }
+    }
+    /// handle (the harness keeps the state itself and inspects the ghost log after the call)
     pub struct Sender<T> {
-        inner: vcoll::sync::Arc<SenderInner<T>>,
+        inner: *const SenderInner<T>,
     }
     impl<T> Clone for Sender<T> {
         fn clone(&self) -> Self {
-            Sender { inner: self.inner.clone() }
+            Sender { inner: self.inner }
         }
     }
     impl<T: Clone> Sender<T> {
-        pub fn new() -> Self {
-            Sender { inner: vcoll::sync::Arc::new(SenderInner { latest: UnsafeCell::new(None), log: UnsafeCell::new(VVec::new()) }) }
+        pub fn on(inner: &SenderInner<T>) -> Self {
+            Sender { inner: inner as *const SenderInner<T> }
         }
         pub fn send(&self, v: T) -> Result<(), ()> {
             unsafe {
-                (*self.inner.log.get()).push(v.clone());
-                *self.inner.latest.get() = Some(v);
+                (*(*self.inner).log.get()).push(v.clone());
+                *(*self.inner).latest.get() = Some(v);
             }
             Ok(())
         }
         pub fn log(&self) -> &VVec<T> {
-            unsafe { &*self.inner.log.get() }
+            unsafe { &*(*self.inner).log.get() }
         }
         pub fn latest(&self) -> Option<&T> {
-            unsafe { (*self.inner.latest.get()).as_ref() }
+            unsafe { (*(*self.inner).latest.get()).as_ref() }
         }
     }
 }
 
+pub type DisconnectLog = UnsafeCell<VVec<SocketAddr>>;
 #[derive(Clone)]
 pub struct RpcNetwork {
-    disconnected: vcoll::sync::Arc<UnsafeCell<VVec<SocketAddr>>>,
+    disconnected: *const DisconnectLog,
 }
 impl RpcNetwork {
-    pub fn new() -> Self {
-        RpcNetwork { disconnected: vcoll::sync::Arc::new(UnsafeCell::new(VVec::new())) }
+    pub fn on(log: &DisconnectLog) -> Self {
+        RpcNetwork { disconnected: log as *const DisconnectLog }
     }
     pub fn disconnect(&self, addr: SocketAddr) {
-        unsafe { (*self.disconnected.get()).push(addr) }
+        unsafe { (*(*self.disconnected).get()).push(addr) }
     }
     pub fn log(&self) -> &VVec<SocketAddr> {
-        unsafe { &*self.disconnected.get() }
+        unsafe { &*(*self.disconnected).get() }
     }
 }
 
+pub type Layout = BTreeMap<Cow<'static, str>, Nodes>;
+/// what the selector was told: the number of set_nodes calls and the LAST layout
+pub struct LayoutLog {
+    pub calls: Cell<usize>,
+    pub last: UnsafeCell<Option<Layout>>,
+}
+impl LayoutLog {
+    pub fn new() -> Self {
+        LayoutLog { calls: Cell::new(0), last: UnsafeCell::new(None) }
+    }
+}
 #[derive(Clone)]
 pub struct NodeSelectorHandle {
-    layouts: vcoll::sync::Arc<UnsafeCell<VVec<BTreeMap<Cow<'static, str>, Nodes>>>>,
+    layouts: *const LayoutLog,
 }
 impl NodeSelectorHandle {
-    pub fn new() -> Self {
-        NodeSelectorHandle { layouts: vcoll::sync::Arc::new(UnsafeCell::new(VVec::new())) }
+    pub fn on(log: &LayoutLog) -> Self {
+        NodeSelectorHandle { layouts: log as *const LayoutLog }
     }
-    pub fn set_nodes(&self, nodes: BTreeMap<Cow<'static, str>, Nodes>) {
-        unsafe { (*self.layouts.get()).push(nodes) }
+    pub fn set_nodes(&self, nodes: Layout) {
+        unsafe {
+            (*self.layouts).calls.set((*self.layouts).calls.get() + 1);
+            *(*self.layouts).last.get() = Some(nodes);
+        }
     }
-    pub fn log(&self) -> &VVec<BTreeMap<Cow<'static, str>, Nodes>> {
-        unsafe { &*self.layouts.get() }
+    pub fn calls(&self) -> usize {
+        unsafe { (*self.layouts).calls.get() }
+    }
+    pub fn last(&self) -> Option<&Layout> {
+        unsafe { (*(*self.layouts).last.get()).as_ref() }
     }
 }
 
@@ -146,19 +172,24 @@ impl Counter {
 }
 #[derive(Clone)]
 pub struct ClusterStatistics {
-    inner: vcoll::sync::Arc<ClusterStatisticsInner>,
+    inner: *const ClusterStatisticsInner,
 }
 pub struct ClusterStatisticsInner {
     pub num_data_centers: Counter,
 }
-impl ClusterStatistics {
+impl ClusterStatisticsInner {
     pub fn new() -> Self {
-        ClusterStatistics { inner: vcoll::sync::Arc::new(ClusterStatisticsInner { num_data_centers: Counter(Cell::new(0)) }) }
+        ClusterStatisticsInner { num_data_centers: Counter(Cell::new(0)) }
+    }
+}
+impl ClusterStatistics {
+    pub fn on(inner: &ClusterStatisticsInner) -> Self {
+        ClusterStatistics { inner: inner as *const ClusterStatisticsInner }
     }
 }
 impl core::ops::Deref for ClusterStatistics {
     type Target = ClusterStatisticsInner;
     fn deref(&self) -> &ClusterStatisticsInner {
-        &self.inner
+        unsafe { &*self.inner }
     }
 }
